@@ -4,6 +4,7 @@ with the caller's data, so no program working on the copy can reach or modify it
 Implementation: documents built from tracking containers that log every mutation."""
 import copy
 import json
+import math
 import random
 import warnings
 
@@ -123,6 +124,23 @@ def run(chk):
         sv, nshared = c02.share(rng, gen.respell(rng, base, 0.3))
         if nshared:
             docs.append(("shared", sv))
+        # infinities spelt as the string "Infinity" (what a JSON document holds before the loader converts it): Graph.fromdict
+        # and Builder.resolve must refuse them, again and again, without touching the data
+        si = copy.deepcopy(rng.choice([base, docs[1][1]]))
+        nstr = 0
+        for dm in si["demes"]:
+            if isinstance(dm.get("start_time"), float) and math.isinf(dm["start_time"]) and rng.random() < 0.7:
+                dm["start_time"] = "Infinity"
+                nstr += 1
+        for m in si.get("migrations", []):
+            if isinstance(m.get("start_time"), float) and math.isinf(m["start_time"]) and rng.random() < 0.7:
+                m["start_time"] = "Infinity"
+                nstr += 1
+        if rng.random() < 0.3:
+            si.setdefault("defaults", {}).setdefault("deme", {})["start_time"] = "Infinity"
+            nstr += 1
+        if nstr:
+            docs.append(("str-infinity", si))
         for kind, d in docs:
             chk.case([kind, json.loads(json.dumps(d, default=repr))], nontrivial=True)
             t = track(d) if kind != "shared" else d
@@ -151,6 +169,34 @@ def run(chk):
                         dict.__setitem__(v, "junk", 1) if isinstance(v, TDict) else v.__setitem__("junk", 1)
                 if r1[1].asdict() != snap:
                     chk.violation("pure:graph-aliases-input", "changing the input after resolution changed the graph", rep)
+        # ---- a Builder made from the document: resolving does not change the Builder's data ----
+        for kind, d in docs:
+            if kind == "shared":
+                continue
+            t = track(copy.deepcopy(plain(d)) if kind != "str-infinity" else copy.deepcopy(d))
+            before = copy.deepcopy(plain(t))
+            try:
+                bld = demes.Builder.fromdict(t)
+            except Exception:
+                continue
+            g_before = outcome(lambda: demes.Graph.fromdict(copy.deepcopy(before)))
+            del LOG[:]
+            r1 = outcome(bld.resolve)
+            rep = dict(op="Builder.fromdict.resolve", kind=kind, document=before)
+            chk.count("builder_fromdict_%s_%s" % (kind, r1[0]))
+            if LOG:
+                chk.violation("pure:builder-data-mutated", "Builder.resolve called a mutating method (%s) on the Builder's data" % LOG[0][1],
+                              dict(rep, log=[w for _, w in LOG[:10]]))
+            if not wire.deep_eq(plain(bld.data), before):
+                chk.violation("pure:builder-data-changed", "the Builder's data changed during resolve (%s)" % r1[0], rep)
+            r2 = outcome(bld.resolve)
+            g_after = outcome(lambda: demes.Graph.fromdict(copy.deepcopy(plain(bld.data))))
+            if r1[:1] != r2[:1] or (r1[0] == "err" and r1[1] != r2[1]) or g_before[:1] != g_after[:1] \
+                    or (g_before[0] == "err" and g_before[1] != g_after[1]) or r1[:1] != g_before[:1]:
+                chk.violation("pure:builder-not-repeatable",
+                              "resolve / Graph.fromdict on the same data: %r then %r; fromdict before %r, after %r"
+                              % (r1[:2] if r1[0] == "err" else r1[0], r2[:2] if r2[0] == "err" else r2[0],
+                                 g_before[:2] if g_before[0] == "err" else g_before[0], g_after[:2] if g_after[0] == "err" else g_after[0]), rep)
         # ---- Builder histories ----
         b = demes.Builder(time_units=base["time_units"], generation_time=base["generation_time"],
                           description=base["description"], doi=list(base["doi"]), metadata=copy.deepcopy(base["metadata"]))
